@@ -29,6 +29,10 @@ pub struct PairCfg {
     pub c_auto_map: bool,
     pub c_auto_replace: bool,
     pub s_auto_map: bool,
+    /// the applications answer asynchronously: manual acknowledgements (PUBACK, PUBREC, PUBREL, PUBCOMP) are queued and sent at
+    /// later `AppFlush` ops, so a transport loss can fall between the receipt of a packet and the application's answer
+    #[serde(default)]
+    pub defer: bool,
 }
 
 #[derive(Clone, Copy, Debug, PartialEq, Eq, Hash, Serialize, Deserialize)]
@@ -48,6 +52,8 @@ pub enum POp {
     Deliver { to_server: bool, how: How },
     /// transport loss: a prefix of each queue (selector over its length) still arrives, the rest is discarded
     Loss { keep_c2s: u16, keep_s2c: u16 },
+    /// the application of one side sends up to n + 1 of its queued answers
+    AppFlush { client: bool, n: u8 },
 }
 
 #[derive(Clone, Debug, Serialize, Deserialize)]
@@ -64,6 +70,8 @@ struct Side {
     /// application's accepted manual alias bindings on this connection
     app_bind: BTreeMap<u16, String>,
     seen_connack: bool,
+    /// answers the application owes (deferred mode)
+    pending: VecDeque<Op>,
 }
 
 #[derive(Clone, Debug)]
@@ -98,7 +106,7 @@ impl Pair {
         let mk = |role: Role| {
             let mut w = World::new(role_cfg(role, &cfg));
             w.strict_close = false;
-            Side { w, out: VecDeque::new(), frames: VecDeque::new(), app_bind: BTreeMap::new(), seen_connack: false }
+            Side { w, out: VecDeque::new(), frames: VecDeque::new(), app_bind: BTreeMap::new(), seen_connack: false, pending: VecDeque::new() }
         };
         let mut p = Pair { cfg, c: mk(Role::Client), s: mk(Role::Server), ledger: BTreeMap::new(), server_has_session: false, losses: 0, deliveries: 0, accepted: 0, crossed_qos: 0, classes: vec![], tag: 0 };
         // distinct payload tags per side
@@ -207,7 +215,18 @@ impl Pair {
             for d in deliveries {
                 self.record_delivery(client, &d)?;
             }
-            work.extend(reactions);
+            if self.cfg.defer {
+                let sd = self.side(client);
+                for r in reactions {
+                    if matches!(r, Op::Ack { .. }) {
+                        sd.pending.push_back(r);
+                    } else {
+                        work.push_back(r);
+                    }
+                }
+            } else {
+                work.extend(reactions);
+            }
         }
         Ok(())
     }
@@ -323,14 +342,51 @@ impl Pair {
         self.s.frames.clear();
         self.exec(true, Op::Closed)?;
         self.exec(false, Op::Closed)?;
+        for client in [true, false] {
+            // the peer retransmits what was not acknowledged: only the PUBRELs of its own outbound exchanges stay owed
+            self.side(client).pending.retain(|o| matches!(o, Op::Ack { kind: AckKind::Pubrel, .. }));
+        }
         if !self.c.w.c.stored().is_empty() || !self.s.w.c.stored().is_empty() {
             self.classes.push("resume_with_non_empty_store");
         }
         self.start_connect()
     }
 
+    /// the application sends up to `n` of its queued answers; an answer whose exchange no longer exists (new session,
+    /// transport replaced for an inbound message) is dropped, as an application tracking its exchanges would do
+    fn flush(&mut self, client: bool, n: usize) -> R {
+        for _ in 0..n {
+            let sd = self.side(client);
+            let Some(op) = sd.pending.pop_front() else { break };
+            let live = match &op {
+                Op::Ack { kind, sel: Sel::Arb(id), .. } => match kind {
+                    AckKind::Puback => sd.w.app.in_q1.contains(id),
+                    AckKind::Pubrec => sd.w.app.in_q2_rec.contains(id),
+                    AckKind::Pubcomp => sd.w.app.in_q2_comp.contains(id),
+                    AckKind::Pubrel => sd.w.app.out_q2_rel.contains(id),
+                },
+                _ => true,
+            };
+            if live && sd.w.t.status == St::Connected {
+                self.exec(client, op)?;
+            } else if live {
+                // not connected right now: the answer stays owed
+                self.side(client).pending.push_front(op);
+                break;
+            }
+        }
+        Ok(())
+    }
+
     pub fn apply(&mut self, op: &POp) -> R {
         match op {
+            POp::AppFlush { client, n } => {
+                if self.connected() {
+                    self.flush(*client, *n as usize + 1)
+                } else {
+                    Ok(())
+                }
+            }
             POp::Deliver { to_server, how } => self.deliver(*to_server, *how),
             POp::Loss { keep_c2s, keep_s2c } => self.loss(*keep_c2s, *keep_s2c),
             _ if !self.connected() => Ok(()),
@@ -377,8 +433,18 @@ impl Pair {
             self.start_connect()?;
         }
         loop {
+            if self.connected() {
+                self.flush(true, usize::MAX >> 1)?;
+                self.flush(false, usize::MAX >> 1)?;
+            }
             if self.c.out.is_empty() && self.s.out.is_empty() {
-                break;
+                if self.c.pending.is_empty() && self.s.pending.is_empty() {
+                    break;
+                }
+                if !self.connected() {
+                    break;
+                }
+                continue;
             }
             if self.deliveries - start > budget {
                 return Err(fail("C01.no_termination", if self.cfg.v == V::V5 { "v5.0" } else { "v3.1.1" }, format!("the exchange did not quiesce within {budget} deliveries (accepted messages {})", self.accepted)));
@@ -483,9 +549,9 @@ pub fn cfg_strategy() -> BoxedStrategy<PairCfg> {
     (
         (crate::gen::version(), prop_oneof![4 => Just(2usize), 1 => Just(4usize)]),
         (rm(), rm(), tam(), tam(), mps(), mps()),
-        (prop_oneof![Just(0u16), Just(10u16)], any::<bool>(), any::<bool>(), any::<bool>(), any::<bool>(), any::<bool>()),
+        (prop_oneof![Just(0u16), Just(10u16)], any::<bool>(), any::<bool>(), any::<bool>(), any::<bool>(), any::<bool>(), prop_oneof![2 => Just(false), 1 => Just(true)]),
     )
-        .prop_map(|((v, idw), (c_rm, s_rm, c_tam, s_tam, c_mps, s_mps), (keep_alive, c_auto, s_auto, c_auto_map, c_auto_replace, s_auto_map))| PairCfg { v, idw, c_rm, s_rm, c_tam, s_tam, c_mps, s_mps, keep_alive, c_auto, s_auto, c_auto_map, c_auto_replace, s_auto_map })
+        .prop_map(|((v, idw), (c_rm, s_rm, c_tam, s_tam, c_mps, s_mps), (keep_alive, c_auto, s_auto, c_auto_map, c_auto_replace, s_auto_map, defer))| PairCfg { v, idw, c_rm, s_rm, c_tam, s_tam, c_mps, s_mps, keep_alive, c_auto, s_auto, c_auto_map, c_auto_replace, s_auto_map, defer })
         .boxed()
 }
 
@@ -496,6 +562,7 @@ pub fn pop_strategy(loss_weight: u32) -> BoxedStrategy<POp> {
         (1, Just(POp::Subscribe).boxed()),
         (1, Just(POp::Unsubscribe).boxed()),
         (1, Just(POp::Ping).boxed()),
+        (4, (any::<bool>(), 0u8..3).prop_map(|(client, n)| POp::AppFlush { client, n }).boxed()),
         (10, (any::<bool>(), how).prop_map(|(to_server, how)| POp::Deliver { to_server, how }).boxed()),
     ];
     if loss_weight > 0 {
@@ -533,7 +600,7 @@ pub struct LossSweep {
 }
 
 pub fn sweep_workloads() -> Vec<(PairCfg, Vec<POp>)> {
-    let base = |v: V, c_auto: bool, s_auto: bool, rm: Option<u16>| PairCfg { v, idw: 2, c_rm: rm, s_rm: rm, c_tam: Some(2), s_tam: Some(2), c_mps: None, s_mps: None, keep_alive: 0, c_auto, s_auto, c_auto_map: false, c_auto_replace: false, s_auto_map: false };
+    let base = |v: V, c_auto: bool, s_auto: bool, rm: Option<u16>| PairCfg { v, idw: 2, c_rm: rm, s_rm: rm, c_tam: Some(2), s_tam: Some(2), c_mps: None, s_mps: None, keep_alive: 0, c_auto, s_auto, c_auto_map: false, c_auto_replace: false, s_auto_map: false, defer: false };
     let pubc = |qos: u8| POp::Publish { from_client: true, qos, topic: 0, alias: AliasMode::None, plen: 0 };
     let pubs = |qos: u8| POp::Publish { from_client: false, qos, topic: 1, alias: AliasMode::None, plen: 0 };
     let d = |to_server: bool| POp::Deliver { to_server, how: How::ToFrameEnd };
@@ -547,6 +614,19 @@ pub fn sweep_workloads() -> Vec<(PairCfg, Vec<POp>)> {
             let w2 = vec![d(true), d(false), pubc(1), pubc(2), d(true), d(true), d(false), d(false), d(true), d(false)];
             out.push((base(v, ca, sa, None), w2));
         }
+        // asynchronous applications (manual answers sent at separate steps): a loss can fall between the receipt of a PUBREC
+        // and the PUBREL, or between a PUBLISH and its PUBREC; a second QoS2 message follows and re-uses freed identifiers
+        let fl = |client: bool| POp::AppFlush { client, n: 0 };
+        let mut cfg = base(v, false, false, None);
+        cfg.defer = true;
+        let one = vec![pubc(2), d(true), fl(false), d(false), fl(true), d(true), fl(false), d(false)];
+        let mut w3 = vec![d(true), d(false)];
+        w3.extend(one.clone());
+        w3.extend(one.clone());
+        out.push((cfg, w3));
+        let mut w4 = vec![d(true), d(false), pubs(2), d(false), fl(true), d(true), fl(false), d(false), fl(true), d(true), pubs(2), pubc(1), d(false), d(true), fl(true), fl(false), d(true), d(false)];
+        w4.push(fl(false));
+        out.push((cfg, w4));
     }
     out
 }
@@ -597,7 +677,7 @@ pub fn run(ctx: &Ctx) -> Report {
          Oracle: no protocol error about the peer, count-bounded termination, delivery ledger per payload tag, ids/store/vacancy at quiescence. Plus a systematic sweep: for fixed tiny workloads a loss at EVERY op position with EVERY byte cut of both queues. \
          non-trivial = at least one QoS>0 message crossed; classes report loss mid-frame, loss between PUBREC and PUBCOMP, resume with non-empty store, alias in use, Receive Maximum 1",
     );
-    let n = ctx.tier.pick(200_000, 3_000_000);
+    let n = ctx.tier.pick(400_000, 3_000_000);
     let (st, v) = search(ctx, "c01.pair", n, strategy, run_case);
     rep.absorb("random_schedules", st, v, false);
     let mut sweeps = Vec::new();
